@@ -300,24 +300,40 @@ fn check_list(text: &str) -> Verdict {
     Verdict::Ok(t_elems.len())
 }
 
+/// The places an argument list is re-emitted from: struct-level, variant-level and shared enum-level `#[display(..)]`
+/// and a field-level `#[debug(..)]`. Returns (item source, derive, formatting trait of the sentinel's bound).
+fn host(k: u64, body: &str) -> (String, &'static str, &'static str) {
+    match k % 4 {
+        0 => (format!("#[display({body})] struct S<T>(T);"), "Display", "Display"),
+        1 => (format!("enum S<T> {{ #[display({body})] A(T) }}"), "Display", "Display"),
+        2 => (format!("struct S<T>(#[debug({body})] T);"), "Debug", "Display"), // (`{N}` names the Display trait)
+        _ => (format!("#[display({body})] enum S<T> {{ A(T), B(T) }}"), "Display", "Display"),
+    }
+}
+
 /// Through the whole attribute: `#[display("{N}", e1, .., en, _0)] struct S<T>(T)` must infer `T: Display` iff the
 /// derive counts exactly n arguments before the sentinel; and the argument tokens must re-appear verbatim and in order.
+/// The host item and a trailing comma after the sentinel vary with the list (hash of its text).
 fn through_attribute(text: &str, n_truth: usize, has_alias: bool) -> Option<(String, String, String)> {
-    if has_alias {
+    let h = super::core::fnv(text);
+    let list = text.trim_end().trim_end_matches(',').trim();
+    let tc = if (h >> 8) & 1 == 1 { "," } else { "" };
+    let (lit, args) = if has_alias {
         // named arguments cannot precede the positional sentinel; use a named sentinel instead
-        let src = if text.trim().is_empty() {
-            "#[display(\"{zz}\", zz = _0)] struct S<T>(T);".to_string()
-        } else {
-            format!("#[display(\"{{zz}}\", {}, zz = _0)] struct S<T>(T);", text.trim_end().trim_end_matches(','))
-        };
-        return attr_check(&src, text);
-    }
-    let src = if text.trim().is_empty() {
-        "#[display(\"{0}\", _0)] struct S<T>(T);".to_string()
+        ("{zz}".to_string(), if list.is_empty() { format!("zz = _0{tc}") } else { format!("{list}, zz = _0{tc}") })
     } else {
-        format!("#[display(\"{{{n_truth}}}\", {}, _0)] struct S<T>(T);", text.trim_end().trim_end_matches(','))
+        (format!("{{{n_truth}}}"), if list.is_empty() { format!("_0{tc}") } else { format!("{list}, _0{tc}") })
     };
-    attr_check(&src, text)
+    let (src, derive, tr) = host(h, &format!("\"{lit}\", {args}"));
+    if let Some(bad) = attr_check(&src, derive, Some(tr), &args, text) {
+        return Some(bad);
+    }
+    // a single argument under a bare placeholder takes the delegating expansion (no `write!`): verbatim there too
+    if n_truth == 1 && !has_alias {
+        let (src, derive, _) = host(h >> 2, &format!("\"{{}}\", {list}{tc}"));
+        return attr_check(&src, derive, None, list, text);
+    }
+    None
 }
 
 /// The derive's own notion of `name =` (not only the splitter's): the first alias whose expression is not a single
@@ -355,28 +371,28 @@ fn alias_shadows_field(c: &ListCase) -> Option<(String, String, String)> {
     }
 }
 
-fn attr_check(src: &str, text: &str) -> Option<(String, String, String)> {
+fn attr_check(src: &str, derive: &str, bound: Option<&str>, args: &str, text: &str) -> Option<(String, String, String)> {
     let item: syn::DeriveInput = syn::parse_str(src).ok()?;
     // the sentinel extends the list: a split difference that only shows with it is reported as such (so that the
     // defect models of `sig_for` apply to it)
-    if let Some(args) = src.split_once("\", ").and_then(|(_, r)| r.rsplit_once(")] struct")).map(|(a, _)| a.to_string()) {
-        if let Verdict::Bad { what, expected, observed } = check_list(&args) {
-            return Some((format!("{what} (list extended by the sentinel argument): `{args}`"), expected, observed));
-        }
+    if let Verdict::Bad { what, expected, observed } = check_list(args) {
+        return Some((format!("{what} (list extended by the sentinel argument): `{args}`"), expected, observed));
     }
-    match dm::expand(Derive::by_name("Display").unwrap(), &item) {
+    match dm::expand(Derive::by_name(derive).unwrap(), &item) {
         Outcome::Ok(ts) => {
-            let impls = tok::impls(&ts).ok();
-            let has_bound = impls
-                .map(|is| is.iter().any(|i| tok::where_preds(i).iter().any(|(t, b)| t == "T" && b.iter().any(|x| x == "Display"))))
-                .unwrap_or(false);
-            if !has_bound {
-                // if the expansion does not re-parse (impls() failed) that is reported as verbatim failure below
-                return Some((
-                    format!("sentinel bound missing for `{src}`"),
-                    "where T: Display (the sentinel `_0` is the argument the placeholder refers to)".into(),
-                    tok::norm(&ts.to_string()),
-                ));
+            if let Some(tr) = bound {
+                let impls = tok::impls(&ts).ok();
+                let has_bound = impls
+                    .map(|is| is.iter().any(|i| tok::where_preds(i).iter().any(|(t, b)| t == "T" && b.iter().any(|x| x == tr))))
+                    .unwrap_or(false);
+                if !has_bound {
+                    // if the expansion does not re-parse (impls() failed) that is reported as verbatim failure below
+                    return Some((
+                        format!("sentinel bound missing for `{src}`"),
+                        format!("where T: {tr} (the sentinel `_0` is the argument the placeholder refers to)"),
+                        tok::norm(&ts.to_string()),
+                    ));
+                }
             }
             // verbatim, in order
             if let Ok(args) = text.trim_end().trim_end_matches(',').parse::<TokenStream>() {
